@@ -443,6 +443,7 @@ type tr struct {
 	ownTg     map[string][]modTarget
 	specFacts map[string]bool
 	stopped   bool
+	dryRun    int // >0: expressions are evaluated only for their shape (no facts are emitted)
 	pfx       string // name prefix of an inlined callee
 	parent    *tr
 	depth     int
@@ -615,7 +616,7 @@ func (t *tr) setHeap(heaps map[string]string, name, expr string) string {
 }
 
 func (t *tr) assume(guard, fact string) {
-	if fact == "true" || fact == "" {
+	if fact == "true" || fact == "" || t.dryRun > 0 {
 		return
 	}
 	if guard == "" || guard == "true" {
